@@ -719,3 +719,65 @@ Lemma cold_start_any_address a later :
 Proof.
   intros H. rewrite server_reports_requested_address. apply connect_or_start_table. right. auto.
 Qed.
+
+(* ---------- the client's environment at a cold start ---------- *)
+
+Lemma cold_start_environment e rep :
+  e_tmpdir e <> Some DirUnusable -> spawn_report e rep = rep.
+Proof.
+  intros H. unfold spawn_report, rendezvous_ok.
+  destruct (e_tmpdir e) as [[|]|]; try reflexivity. congruence.
+Qed.
+
+Lemma cold_start_stale_environment tmp xdg home a later :
+  tmp <> Some DirUnusable ->
+  connect_with_retry later = true ->
+  connect_or_start ARefused
+    (spawn_report {| e_tmpdir := tmp; e_xdg_runtime := xdg; e_home := home |} (report_of_started_server a)) later
+  = None.
+Proof.
+  intros Ht Hr. rewrite cold_start_environment by exact Ht. apply cold_start_any_address. exact Hr.
+Qed.
+
+Lemma unusable_tmpdir_is_an_error xdg home rep later :
+  connect_or_start ARefused
+    (spawn_report {| e_tmpdir := Some DirUnusable; e_xdg_runtime := xdg; e_home := home |} rep) later
+  = Some ESpawnFailed.
+Proof. reflexivity. Qed.
+
+(* ---------- results larger than a frame ---------- *)
+
+Lemma oversized_result_falls_back opq ig cap f local :
+  cap < blen (encode_finished f) ->
+  client opq ig (server_reply cap f) Eof = RunLocally LEofAfterAck /\
+  exit_code (client opq ig (server_reply cap f) Eof) local = local.
+Proof.
+  intros H. unfold server_reply.
+  replace (blen (encode_finished f) <=? cap) with false by lia.
+  apply (eof_after_ack opq ig _ (encode_compile_response CompileStarted) [] local).
+  - apply framed_frame. reflexivity.
+  - apply decode_encode_started.
+  - reflexivity.
+Qed.
+
+Lemma fitting_result_relayed opq ig cap f :
+  wf_finished f -> blen (encode_finished f) < 4294967296 ->
+  blen (encode_finished f) <= cap ->
+  client opq ig (server_reply cap f) Eof = ReturnFinished f.
+Proof.
+  intros Hwf Hlen Hfit. unfold server_reply.
+  replace (blen (encode_finished f) <=? cap) with true by lia.
+  rewrite <- (app_nil_r (frame (encode_finished f))).
+  apply exchange_on_the_wire; assumption.
+Qed.
+
+(* whole or not at all: whatever CompileFinished the client acts on is the one the compile produced *)
+Lemma result_whole_or_not_at_all opq ig cap f f' :
+  wf_finished f -> blen (encode_finished f) < 4294967296 ->
+  client opq ig (server_reply cap f) Eof = ReturnFinished f' -> f' = f.
+Proof.
+  intros Hwf Hlen H.
+  destruct (blen (encode_finished f) <=? cap) eqn:E.
+  - rewrite fitting_result_relayed in H by (try assumption; lia). congruence.
+  - destruct (oversized_result_falls_back opq ig cap f 0) as [H1 _]; [lia|]. congruence.
+Qed.
